@@ -74,6 +74,9 @@ def configs():
     for with_ctx in ('fallbacks', 'ownspecials'):
         for kw in (base[0], base[1], base[6], base[12], base[15], base[18]):
             cfgs.append((with_ctx, kw))
+    # ... and a database that defines macros and specials but no paragraph-break specials
+    for kw in (base[0], base[1], base[6], base[7]):
+        cfgs.append(('noparagraphspecials', kw))
     return cfgs
 
 
@@ -99,6 +102,11 @@ def context_for(with_ctx):
             db2.set_unknown_specials_spec(SpecialsSpec(''))
             db2.freeze()
             _CTXS[with_ctx] = db2
+        elif with_ctx == 'noparagraphspecials':
+            db = LatexContextDb()
+            db.add_context_category('s', macros=[MacroSpec('a', '{')], specials=[SpecialsSpec(x) for x in ('~', '--', '&')])
+            db.freeze()
+            _CTXS[with_ctx] = db
         else:
             db = LatexContextDb()
             db.add_context_category('s', macros=[MacroSpec('a', '{')], specials=[
